@@ -93,8 +93,11 @@ Lemma stamp_sem_CCCS (c : sctx K) : wf_ctx c -> ctrl_is_vsrc c = true ->
 Proof. intros W Hc. bools W. unfold stamp_CCCS. solve_stamp. Qed.
 Lemma stamp_CCCS_rejects (c : sctx K) : ctrl_is_vsrc c = false -> stamp_CCCS c = SErr.
 Proof. intros H. unfold stamp_CCCS. rewrite H. reflexivity. Qed.
-Lemma stamp_sem_CCVS (c : sctx K) : wf_ctx c -> realises (stamp_CCVS c) c (drawn_CCVS c) (brel_CCVS c).
-Proof. intros W. bools W. unfold stamp_CCVS. solve_stamp. Qed.
+Lemma stamp_sem_CCVS (c : sctx K) : wf_ctx c -> ctrl_is_vsrc c = true ->
+  realises (stamp_CCVS c) c (drawn_CCVS c) (brel_CCVS c).
+Proof. intros W Hc. bools W. unfold stamp_CCVS. solve_stamp. Qed.
+Lemma stamp_CCVS_rejects (c : sctx K) : ctrl_is_vsrc c = false -> stamp_CCVS c = SErr.
+Proof. intros H. unfold stamp_CCVS. rewrite H. reflexivity. Qed.
 Lemma stamp_sem_K (c : sctx K) : wf_ctx c -> akind_eqb (kind c) KT || akind_eqb (kind c) KTime = false ->
   realises (stamp_K c) c (drawn_K c) (brel_K c).
 Proof. intros W Hk. bools W. unfold stamp_K. by_kind; solve_stamp1. Qed.
